@@ -1,0 +1,25 @@
+//go:build verif
+
+// Contracts for package cbor, checked by /verif (govc). Comment-only.
+package cbor
+
+//@ define validIO(i *IOCbor) = i != nil && i.refEntry != nil && i.refClock != nil && (i.linkKey == nil || ref(i.linkKey) != nil)
+
+//@ func (*IOCbor).DecodeRawJSONLog
+//@   requires i != nil && node != nil
+//@   ensures err == nil ==> result0 != nil
+
+//@ func (*IOCbor).DecryptLinks
+//@   requires i != nil && entry != nil && (i.linkKey == nil || ref(i.linkKey) != nil)
+//@   modifies entry.Next, entry.Refs
+//@   ensures err == nil ==> result0 == entry
+
+//@ func (*IOCbor).DecodeRawEntry
+//@   requires validIO(i) && node != nil
+//@   ensures [decoded-entry-is-safe-to-use] err == nil ==> validEntry(result0) && fresh(result0)
+
+//@ func castBytesToCid
+//@   ensures true
+
+//@ func castCidToBytes
+//@   ensures true
